@@ -216,7 +216,7 @@ theorem delete_leaves_trailer_ref_witness (os : Objects) :
 
 /-! ### resources and content -/
 
-theorem Dict.get_set (d : Dict) (k : Bytes) (v : Obj) (q : Bytes) :
+theorem Dict.get_set_c11 (d : Dict) (k : Bytes) (v : Obj) (q : Bytes) :
     Dict.get (Dict.set d k v) q = if k = q then some v else Dict.get d q := by
   induction d with
   | nil => simp [Dict.set, Dict.get]
@@ -242,7 +242,7 @@ theorem readLoc_writeLoc (os : Objects) (loc : ResLoc) (o v : Obj) (h : readLoc 
     split at h
     · rename_i pd hg
       simp only [writeLoc, hg, readLoc, Objects.get_set]
-      simp [Dict.get_set]
+      simp [Dict.get_set_c11]
     · cases h
 
 /-- adding `name ↦ v` to the sub-dictionary `sub` of category `cat`: every other category and every other
@@ -252,9 +252,9 @@ theorem withEntry_monotone (res sub : Dict) (cat name : Bytes) (v : Obj) :
     Dict.get (Dict.set res cat (.dict (Dict.set sub name v))) cat = some (.dict (Dict.set sub name v)) ∧
     (∀ n, n ≠ name → Dict.get (Dict.set sub name v) n = Dict.get sub n) ∧
     Dict.get (Dict.set sub name v) name = some v := by
-  refine ⟨?_, by simp [Dict.get_set], ?_, by simp [Dict.get_set]⟩
-  · intro c hc; simp [Dict.get_set, Ne.symm hc]
-  · intro n hn; simp [Dict.get_set, Ne.symm hn]
+  refine ⟨?_, by simp [Dict.get_set_c11], ?_, by simp [Dict.get_set_c11]⟩
+  · intro c hc; simp [Dict.get_set_c11, Ne.symm hc]
+  · intro n hn; simp [Dict.get_set_c11, Ne.symm hn]
 
 /-- **C11, resources_monotone (partial: the resource dictionary the call works on).** If
 `get_or_create_resources` locates a resource dictionary `res` for the page, then after
@@ -284,10 +284,10 @@ theorem addGraphicsState_monotone_partial (d : Doc) (pg : ObjId) (name : Bytes) 
   · have hh' : Dict.has res kExtGState = false := by simpa using hh
     have hnone : Dict.get res kExtGState = none := by
       simp only [Dict.has] at hh'; cases hx : Dict.get res kExtGState <;> simp_all
-    simp only [hh', Bool.false_eq_true, if_false, Dict.get_set, if_true]
+    simp only [hh', Bool.false_eq_true, if_false, Dict.get_set_c11, if_true]
     refine ⟨_, readLoc_writeLoc _ _ _ _ hr, ?_, ?_⟩
     · intro c hc
-      rw [(withEntry_monotone _ [] kExtGState name _).1 c hc, Dict.get_set]; simp [Ne.symm hc]
+      rw [(withEntry_monotone _ [] kExtGState name _).1 c hc, Dict.get_set_c11]; simp [Ne.symm hc]
     · intro sd h0; rw [hnone] at h0; cases h0
 
 /-- the same for `add_xobject` when the `XObject` entry is a direct dictionary or absent (when it is a
@@ -318,10 +318,10 @@ theorem addXObject_monotone_partial (d : Doc) (pg : ObjId) (name : Bytes) (xid :
   · have hh' : Dict.has res kXObject = false := by simpa using hh
     have hnone : Dict.get res kXObject = none := by
       simp only [Dict.has] at hh'; cases hx : Dict.get res kXObject <;> simp_all
-    simp only [hh', Bool.false_eq_true, if_false, Dict.get_set, if_true]
+    simp only [hh', Bool.false_eq_true, if_false, Dict.get_set_c11, if_true]
     refine ⟨_, readLoc_writeLoc _ _ _ _ hr, ?_, ?_⟩
     · intro c hc
-      rw [(withEntry_monotone _ [] kXObject name _).1 c hc, Dict.get_set]; simp [Ne.symm hc]
+      rw [(withEntry_monotone _ [] kXObject name _).1 c hc, Dict.get_set_c11]; simp [Ne.symm hc]
     · intro sd h0; rw [hnone] at h0; cases h0
 
 /-- **F-C11-e (counter-witness).** Page 2 has no own `Resources` and inherits `/Font /F1` from its parent 3.
@@ -360,10 +360,10 @@ theorem change_content_decodes (inflate : Bytes → Option Bytes) (deflate : Byt
   unfold plainThenCompress
   simp only
   split
-  · simp only [decodeStream, Dict.get_set]
+  · simp only [decodeStream, Dict.get_set_c11]
     have h1 : ¬ (LENGTHE = kFilter) := by decide
     simp [h1, hcodec]
-  · simp only [decodeStream, Dict.get_set]
+  · simp only [decodeStream, Dict.get_set_c11]
     have h1 : ¬ (LENGTHE = kFilter) := by decide
     simp [h1, hplain]
 
@@ -373,8 +373,8 @@ theorem change_content_length (deflated : Bytes) (dict : Dict) (c : Bytes) :
   unfold plainThenCompress
   simp only
   split
-  · exact ⟨_, _, rfl, by simp [Dict.get_set]⟩
-  · exact ⟨_, _, rfl, by simp [Dict.get_set]⟩
+  · exact ⟨_, _, rfl, by simp [Dict.get_set_c11]⟩
+  · exact ⟨_, _, rfl, by simp [Dict.get_set_c11]⟩
 
 example : Dict.get (Dict.remove (Dict.remove [(kFilter, .name [65]), (LENGTHE, .int 3), (kDecodeParms, .null)] kDecodeParms) kFilter) kFilter = none := by
   decide
